@@ -26,7 +26,8 @@ RULE = ("random spec trees to depth 3 (quick, 16000 trees) / 4 (thorough, 16 x 2
         "(by printed S-expression) with at least one composite node that round-tripped"
         ". Rounds 6-7: the size query is repeated after every write; self-referential specs (a node record holding a list of nodes, 4 shapes) against a hand-computed encoding; text with characters that line-oriented helpers treat as breaks"
         ". Round 8: composite (multi-bit) flag values for optional-by-flag fields"
-        ". Round 9: an enum class with a catch-all _missing_ member; the reader is switched to the other byte order and mode before the value read is looked at")
+        ". Round 9: an enum class with a catch-all _missing_ member; the reader is switched to the other byte order and mode before the value read is looked at"
+        ". Round 10: tuples whose later members (ContextSwitch, ContextAdapter) are chosen by the tuple's first member, read by index through the tuple's own context level")
 ASSUMPTIONS = [
     "grammar side-conditions are the combinators' documented contracts: window-consuming specs only last in their "
     "window, greedy collections get entries of non-zero width, fixed-length collections have length >= 1, "
